@@ -146,6 +146,7 @@ def run(ctx):
     ctx.floor('C06-R1', len(raws), 1, 'raw parse sites (the NaN-tolerant beat length)')
     # ---- R2
     rv = prov.prov_of(frm).return_value()
+    rv = prov.inline_all(F, rv, depth=2, _seen=(frm.path,))
     lit = [x for x in prov.walk(rv) if x[0] == 'agg' and x[2] == BM]
     n2 = 0
     if len(lit) != 1:
@@ -185,8 +186,18 @@ def run(ctx):
                     'decoder writes scroll_speed = clamp(..)', fn.where(a['line']), bad='%s writes scroll_speed = `%s` without clamp' % (fn.path, prov.show(v, maxdepth=3)))
     ctx.floor('C06-R2', n2, 10, 'clamped fields')
     # ---- R3
-    P = prov.prov_of(frm)
-    sorts = [(bi, t) for bi, t in frm.calls() if callee_path(t).endswith('TandemSorter::sort')]
+    # the sort may sit in a local helper that From<BeatmapState> calls with the state
+    sfn = frm
+    if not any(callee_path(t).endswith('TandemSorter::sort') for _, t in frm.calls()):
+        for _, t in frm.calls():
+            g = F.fn(callee_path(t)) if t['func'].get('local') else None
+            if g is not None and any(callee_path(t2).endswith('TandemSorter::sort') for _, t2 in g.calls()) and \
+                    any('BeatmapState' in (i.get('s') or '') for i in g.j.get('inputs', [])):
+                sfn = g
+                ctx.saw(g)
+                break
+    P = prov.prov_of(sfn)
+    sorts = [(bi, t) for bi, t in sfn.calls() if callee_path(t).endswith('TandemSorter::sort')]
     targets = {}
     sorter_ids = set()
     for bi, t in sorts:
